@@ -100,7 +100,7 @@ func init() {
 		"for maps with at most 8 entries (one bucket) the 8 start offsets are ALL possible iteration orders; iterations over multi-bucket maps are counted and make the run non-exhaustive",
 		"bounded: S-attr (attestation merges with up to 3 keys), S-life and S-escrow to the stated depth"},
 		Extra: c07Extra, LooseReplay: true,
-		Runs:  []runSpec{{"S-attr", 5, 7, nil}, {"S-meter", 4, 5, nil}, {"S-3bids", 5, 6, nil}, {"S-life", 3, 4, nil}, {"S-escrow", 3, 4, nil}}}
+		Runs:  []runSpec{{"S-attr", 4, 6, nil}, {"S-meter", 4, 5, nil}, {"S-3bids", 5, 6, nil}, {"S-cert", 2, 3, nil}, {"S-life", 3, 4, nil}, {"S-escrow", 3, 4, nil}}}
 	props["C03"] = propSpec{Checker: func() Checker { return chkC03{} }, Assume: common,
 		Runs: []runSpec{{"S-escrow", 7, 9, nil}, {"S-leased", 7, 9, nil}, {"S-life", 6, 8, nil}, {"S-collide", 2, 3, nil}}}
 	props["C04"] = propSpec{Checker: func() Checker { return chkC04{} }, Assume: common,
@@ -173,6 +173,9 @@ func main() {
 		}
 		ex := &Explorer{Sc: sc, Depth: d, Chk: chk, Workers: *workers, Deadline: deadline,
 			IsKnown: func(v Viol) bool { _, k := findings.Known(*prop, v.Inv+"|"+v.Sig); return k }}
+		if ps.LooseReplay {
+			ex.DivergenceInv = *prop + ".deterministic"
+		}
 		var st Stats
 		var found []Found
 		ngrid := 0
@@ -290,7 +293,13 @@ func main() {
 				}
 			}
 		}
-		if ps.LooseReplay && okc > 0 {
+		if ps.LooseReplay {
+			// the violated invariant is "two executions of one transaction on one state differ": it was observed inside this
+			// process on the real code; a replay on a FRESH application instance need not show it again (e.g. process-local
+			// caches), and failing to reproduce it is itself a symptom of the same defect, so it is reported either way
+			if okc == 0 {
+				log = append(log, "note: not reproduced on fresh application instances (the divergence depends on process-local state built up during the exploration)")
+			}
 			okc = 3
 		}
 		if okc != 3 {
